@@ -156,17 +156,29 @@ func ZZ_C10_pod_reconcile() {
 	recUID := ""
 	hasRec := zz.Bool("record.exists")
 	fixed := false
+	recENIs := "eni-old,"
 	if hasRec {
 		oldPhase = phases[zz.Fork("record.phase", len(phases))]
 		recUID = zz.OneOf("record.uid", "uid-a", "uid-b", "")
-		fixed = zz.Bool("record.fixed")
+		// one or two allocations, each fixed or elastic (a multi-network pod may mix them, in any order):
+		// the record "has a fixed IP" when any allocation is fixed
+		fixed1 := zz.Bool("record.fixed")
 		r := &v1beta1.PodENI{ObjectMeta: metav1.ObjectMeta{Namespace: "ns", Name: "p0", Annotations: map[string]string{types.PodUID: recUID}, Labels: map[string]string{}}}
 		r.Status.Phase = oldPhase
-		var at v1beta1.IPAllocType = v1beta1.IPAllocTypeElastic
-		if fixed {
-			at = v1beta1.IPAllocTypeFixed
+		typeOf := func(f bool) v1beta1.IPAllocType {
+			if f {
+				return v1beta1.IPAllocTypeFixed
+			}
+			return v1beta1.IPAllocTypeElastic
 		}
-		r.Spec.Allocations = []v1beta1.Allocation{{ENI: v1beta1.ENI{ID: "eni-old"}, AllocationType: v1beta1.AllocationType{Type: at}}}
+		r.Spec.Allocations = []v1beta1.Allocation{{ENI: v1beta1.ENI{ID: "eni-old"}, AllocationType: v1beta1.AllocationType{Type: typeOf(fixed1)}}}
+		fixed = fixed1
+		if zz.Bool("record.second.allocation") {
+			fixed2 := zz.Bool("record.second.fixed")
+			r.Spec.Allocations = append(r.Spec.Allocations, v1beta1.Allocation{ENI: v1beta1.ENI{ID: "eni-old2"}, AllocationType: v1beta1.AllocationType{Type: typeOf(fixed2)}})
+			fixed = fixed1 || fixed2
+			recENIs = "eni-old,eni-old2,"
+		}
 		if zz.Bool("record.deleting") {
 			ts := metav1.Unix(1700000000, 0)
 			r.DeletionTimestamp = &ts
@@ -228,7 +240,7 @@ func ZZ_C10_pod_reconcile() {
 		zz.Assert(len(cl.writes) == 1 && len(cloud.deleted) == 0 && created == 0, "re-binding is one write per pass and touches no interface")
 		if len(cl.writes) == 1 {
 			w := cl.writes[0]
-			zz.Assert(w.enis == "eni-old,", "the retained interface (and with it the address) is kept by the re-binding")
+			zz.Assert(w.enis == recENIs, "the retained interfaces (and with them the addresses) are kept by the re-binding")
 			if recUID != podUID {
 				zz.Assert(w.kind == "update" && w.uid == podUID && w.phase == v1beta1.ENIPhaseUnbind, "a record of a previous pod instance is first re-targeted to the new instance, its phase untouched")
 			} else {
